@@ -27,7 +27,7 @@ TOKENS_ALL = ["&", "<", ">", '"', "'", "a", ";", "&amp;", "&lt;", "&#65;", "&#x4
 TOKENS = TOKENS_ALL if THOROUGH else ["&", "<", '"', "a", "&amp;", "&#65;", "]]>"]
 ALPH = "&<>\"']a;"
 MAXLEN = 3 if THOROUGH else 2
-NTOK = 2 if THOROUGH else 1
+NTOK = 1  # two-token strings over 15 chart types x 4 sinks are ~9000 paths: not within reach; the line-chart module covers pairs
 
 # one chart type per XML writer class and per branch inside it that emits caller strings
 CAT_TYPES = [XL.AREA, XL.BAR_CLUSTERED, XL.COLUMN_STACKED_100, XL.DOUGHNUT, XL.DOUGHNUT_EXPLODED, XL.LINE_MARKERS, XL.PIE,
@@ -89,8 +89,9 @@ def _as_data(build, read, s):
 
 
 LAST_DETAIL = None
-_TOKBOUND = ("quick: one token from [&, <, \", a, &amp;, &#65;, ]]>]; thorough: strings of 1..2 tokens from [&, <, >, \", ', a, ;, &amp;, &lt;, "
-             "&#65;, &#x41;, ]]>, <!--, &quot;] (token indices and the chart type are choice variables: exhaustive)")
+_TOKBOUND = ("one token from [&, <, \", a, &amp;, &#65;, ]]>] (quick) / from [&, <, >, \", ', a, ;, &amp;, &lt;, &#65;, &#x41;, ]]>, <!--, "
+             "&quot;] (thorough); token index and chart type are choice variables: exhaustive; pairs of tokens are covered for the line "
+             "chart by tokens_chart")
 
 
 @cond(timeout=1500, encodes=["pptx.chart.xmlwriter:ChartXmlWriter", "pptx.chart.xmlwriter:_BaseSeriesXmlWriter.name",
